@@ -1,35 +1,45 @@
 PROP = {
-    "thm": ["Umya.Thm.C01", "Umya.Thm.C01Bytes", "Umya.Thm.C01Gen"],
+    "thm": ["Umya.Thm.C01", "Umya.Thm.C01Bytes", "Umya.Thm.C01Gen", "Umya.Thm.C01Chars"],
     "harness": "c01",
     "level": "proof",
     "stateful": True,
-    "level_text": "Proof on a hand-written model of the cell value codec AS FIXED (fix_1..fix_6): for every cell of every kind (blank, text, rich text with >=1 run, "
-                  "number token, boolean, error, a value stored with set_value_lazy and never resolved), with or without a formula (also over a rich text: fix 5), styled or not, "
-                  "anywhere in the grid, and for EVERY text over Unicode scalar values "
-                  "(XML specials, CR/LF/TAB, C0 controls, U+FFFE, non-BMP; value text, run text and formula text alike): what Cell::write_to emits is turned back into the "
-                  "same cell by Cell::set_attributes, an unresolved lazy value as the typed value guess_typed_data makes of its text (fix 6; Cell.resolved, C01_resolved) "
-                  "(C01_cell_roundtrip); at package level, for any number of sheets and for both writers, the reloaded workbook is the "
-                  "stored one without its blank unstyled cells, lazy values resolved, in order (C01_roundtrip, C01_normalize, C01_light_same); from the cell store to the reloaded cells via "
-                  "C10's row-loop theorem (C01_sheet_roundtrip); quick-xml escaping laws (C01_unescape_escape, C01_unescape_partial_escape, C01_text_nodes). "
-                  "The model is tied to the code on every run by a differential check of (a) the setters, (b) the facts read back from the saved package with a non-unescaping "
-                  "scanner (r, t, s, raw <f>/<v>, the <si> list) against the model writer, (c) the real reader against the model reader on those same facts and on hand-made "
-                  "packages (entities, character references, padding, inline strings, bad indices), and by the implementation-level oracle reloaded == stored.",
-    "level_note": "Trusted: Lean kernel + 3 standard axioms; the hand model as exercised; XML as lexed facts (quick-xml's tag syntax / event splitting is modelled at fact level, "
-                  "its escape/unescape/trim_text on characters); numbers are opaque tokens with print-then-parse = id as a hypothesis (Rust f64 Display/FromStr, sampled); "
-                  "content hash of shared-string items assumed injective; run properties of rich text are an opaque token assumed to survive (C05).",
+    "level_text": "Proof on a hand-written model of the cell value codec AS FIXED (fix_1..fix_6), END TO END through the CHARACTERS of the written parts: for every workbook of any number of "
+                  "well-formed sheets (C10's coherence + grid limits) with cells of every kind (blank, text, rich text with >=1 run, number token, boolean, error, a value stored with set_value_lazy and never resolved), with or without a formula (also over a rich text: fix 5), "
+                  "styled or not, one string table threaded through the sheets, and for both writers: the reader (independent XML 1.0 parse of the characters of every worksheet part and of the "
+                  "shared-strings part, fact view of the element trees, C01's model of Cell::set_attributes / SharedStringItem::set_attributes) returns, per sheet and in order, exactly the stored "
+                  "cells that are not blank-and-unstyled, an unresolved lazy value as the typed value guess_typed_data makes of its text (fix 6; Cell.resolved, C01_resolved), each with the same position, value kind, value text, number and formula text (C01_book_chars_roundtrip, C01_sheet_chars_roundtrip; composed from "
+                  "the writer model, C02_bytes_parse and C01's fact-level round trip through C01_cell_fact_view / C01_cell_tree_roundtrip). The characters are those of ANY tree of writer calls that means the "
+                  "rendered tree and consists of XML Names and XML 1.0 Chars (WF); for texts with other characters (U+0001 ...: the writer passes them through, an XML 1.0 reader rejects the part: "
+                  "C01_non_xml_char_partial) and for the empty text cached under a formula (<v></v> = <v/> as trees: C01_empty_cached_text_same_tree) the fact-level theorems remain: for EVERY text over Unicode "
+                  "scalar values what Cell::write_to emits is turned back into the same cell (lazy values resolved) by Cell::set_attributes (C01_cell_roundtrip), at package level C01_roundtrip, C01_normalize, C01_light_same, "
+                  "C01_sheet_roundtrip (via C10's row loop); quick-xml escaping laws (C01_unescape_escape, C01_unescape_partial_escape, C01_text_nodes). "
+                  "The model is tied to the code on every run by a differential check of (a) the setters, (b) the facts read back from the saved package with a non-unescaping scanner against the model writer, "
+                  "(c) the real reader against the model reader on those facts and on hand-made packages, (d) NEW, per saved package: the characters of the model's <sheetData> (real row table, model cells, "
+                  "writeCells) and of every <si> of the model's final table are character-identical to the real parts (whose recovered writer calls re-render to the part and satisfy WF), and the composed function "
+                  "of the theorems (readBookChars) run on the REAL characters returns the cells the library reloaded; workbooks holding a non-XML character go through (d) without the cells that hold one, and "
+                  "their original parts are checked to be rejected by the XML 1.0 reader; and by the implementation-level oracle reloaded == stored.",
+    "level_note": "Trusted: Lean kernel + 3 standard axioms; the hand model as exercised. The tag syntax of quick-xml's WRITER is modelled at character level (Model/XmlWrite, C02_writer_matches_source) and "
+                  "closed by C02_bytes_parse; on the READER side the characters go through the independent XML 1.0 reader and the fact view of its trees, not through a model of quick-xml's event reader "
+                  "(its escape/unescape/trim_text are modelled on characters; its tokenisation is tied by legs (c) and (d)); numbers are opaque tokens with print-then-parse = id as a hypothesis "
+                  "(NumFmt.Sound: Rust f64 Display/FromStr, checked on every number a generated cell holds and on 10^4 / 10^6 doubles per run); content hash of shared-string items assumed injective; run properties of rich "
+                  "text are an opaque token of which the character-level statements keep only the presence (cells compared up to eraseFonts; C05 has the <rPr> codec); the worksheet frame (children other than "
+                  "sheetData / mergeCells / hyperlinks) is opaque, in schema order (Frame.ok, evaluated per file by the C02 sheet bridge).",
     "expect_theorems": ["C01_datatype_matches_source", "C01_bytes_text_identity", "C01_bytes_text_identity_conversion", "C01_bytes_attr_identity", "C01_channels_match_source", "C01_unescape_escape", "C01_unescape_partial_escape", "C01_text_nodes", "C01_cell_roundtrip", "C01_index_resolves",
                         "C01_roundtrip", "C01_light_same", "C01_normalize", "C01_sheet_roundtrip",
+                        "C01_cell_fact_view", "C01_si_fact_view", "C01_cell_tree_roundtrip", "C01_obs_erase",
+                        "C01_sheet_chars_roundtrip", "C01_sheet_chars_roundtrip_default", "C01_book_chars_roundtrip",
+                        "C01_non_xml_char_partial", "C01_empty_cached_text_same_tree",
                         "C01_resolved", "C01_trimmed_read_fails", "C01_lazy_repaired", "C01_rich_under_formula_repaired", "C01_rich_no_runs_fails"],
     "rule": "workbooks (quick 300 / thorough 5000) of 1-4 sheets and 0-400 cells built through the public API (set_value, set_value_string, set_value_number, set_value_bool, "
             "set_rich_text, set_error, set_formula + cached result of every kind via setters or set_formula_result_default, set_blank, set_value_lazy, a bold style), positions biased to "
             "A1 / XFD1048576 / column-letter and row-digit boundaries, texts from the alphabet of DESIGN 2.5 plus leading/trailing/only blanks; each saved with BOTH writers into memory and "
             "reloaded with read_reader(.., true); then hand-made packages (quick 3000 / thorough 40000) for the reader alone; then batches of 500 doubles (quick 10^4 / thorough 10^6) "
-            "through a one-column sheet compared bit for bit. The first workbook replays the witnesses of the six repaired defects (fix 5: rich text under a formula; fix 6: lazy 'abc', '123', "
+            "through a one-column sheet compared bit for bit; per saved package the character-level leg (c01 chars / charsorig). The first workbook replays the witnesses of the six repaired defects (fix 5: rich text under a formula; fix 6: lazy 'abc', '123', "
             "'TRUE', '1e5', '' with and without a formula / a style) and of the known finding (rich text without runs, with and without a formula). A stored lazy value is compared with "
             "what the public resolver get_value_lazy makes of it (formula kept). "
             "non-trivial = the request returned (not a panic / bad-op); distinct = distinct request line",
     "trusted_base": TB_COMMON + [
-        "quick-xml 0.37.5 escape / partial_escape / unescape / trim_text modelled from its source on characters; tag syntax and event splitting as lexed facts (the harness scanner and the synthesiser of hand-made parts are trusted code)",
+        "quick-xml 0.37.5 escape / partial_escape / unescape / trim_text modelled from its source on characters; its Writer's tag syntax modelled on characters (Model/XmlWrite); its Reader's event splitting as lexed facts in the fact-level theorems (the harness scanner and the synthesiser of hand-made parts are trusted code) and replaced by the independent XML 1.0 reader of Spec/XmlLex in the character-level theorems",
         "Rust f64 Display/FromStr round trip and shape (hypothesis NumFmt.Sound; sampled on every run, 10^6 doubles in the thorough tier)",
         "str::to_uppercase modelled for ASCII plus U+017F and U+0131 (the only non-ASCII characters whose upper case is an ASCII letter)",
         "zip crate (reading the written package back, writing the hand-made ones)",
@@ -38,11 +48,15 @@ PROP = {
     "assumptions": ["NumFmt.Sound: parse (fmt n) = some n; fmt n is non-empty over -0123456789.eE+infNa",
                     "cells lie in 1..16384 x 1..1048576; the number of distinct shared strings is below 2^64",
                     "the value is not a rich text with zero runs (the known finding C01-rich-text-no-runs)",
-                    "rich-text run properties are an opaque token that the <rPr> codec preserves (C05)"],
-    "partial_clauses": ["'reload to the identical floating-point value' rests on the trusted f64 Display/FromStr round trip (numbers are opaque tokens in the proof); explored by the harness bit for bit",
+                    "rich-text run properties are an opaque token that the <rPr> codec preserves (C05)",
+                    "character-level theorems only: every character of every text, formula and attribute value is an XML 1.0 Char (WF of the writer-call tree; refuted beyond it by C01_non_xml_char_partial); the value is not the empty text cached under a formula (charsOK; C01_empty_cached_text_same_tree); Frame.ok for the opaque worksheet children"],
+    "partial_clauses": ["'reload to the identical floating-point value' rests on the trusted f64 Display/FromStr round trip (numbers are opaque tokens in the proof; one hypothesis, NumFmt.Sound); checked by the harness bit for bit on every number a generated cell holds (numfmt.checked) and on the nums batches",
+                        "'every workbook that can be built through the public API': texts with characters outside XML 1.0 Char (U+0000-U+0008, U+000B, U+000C, U+000E-U+001F, U+FFFE, U+FFFF) are covered at fact level only (C01_cell_roundtrip, C01_roundtrip: quick-xml's reader does not check character legality and the round trip holds); at character level the written part is not well-formed XML 1.0 and the independent reader rejects it (C01_non_xml_char_partial; counted per run: chars.books.nonxml, chars.nonxml.parts)",
+                        "a formula whose cached value is the EMPTY text is covered at fact level only: <v></v> and <v/> are the same element tree (C01_empty_cached_text_same_tree)",
+                        "the reader side of the character-level theorems is C01's reader on the fact view of XML 1.0 trees, not a model of quick-xml's tokeniser; trim_text on raw bytes vs on values differs only for blanks written as character references, which the writers never emit into a trimmed element (hand-made parts: leg (c))",
                         "the zip container and part naming are outside this model (C02); both writers are covered because the cell codec does not see the compression method (C01_light_same is rfl on the model; tied by running both)",
-                        "styles are a boolean 'style not empty' here (C05)"],
-    "technique": "Lean 4 theorems on a model of the cell value codec (escape laws, per-cell and package round trip, C10 row loop) + differential check of written facts, reader and setters",
+                        "styles are a boolean 'style not empty' here (C05); rich-text run properties only as present / absent at character level"],
+    "technique": "Lean 4 theorems on a model of the cell value codec (escape laws, per-cell and package round trip, C10 row loop), composed through the characters of the written parts (writer model + C02_bytes_parse + fact view) + differential check of written facts, written characters, reader and setters",
     "timeout_quick": 900,
     "timeout_thorough": 3600,
 }
